@@ -5,6 +5,7 @@
 -/
 import Fosite.Driver.Wire
 import Fosite.Model.Fault
+import Fosite.Model.Sched
 namespace Fosite.Driver
 open Fosite.Model
 
@@ -241,12 +242,60 @@ def parsePlan (s : String) : List (Nat × Err) :=
     | [i, k] => i.toNat?.map (fun n => (n, parseFaultKind k))
     | _ => none)
 
+/-! ### op "par": several operations interleaved at storage-call granularity (C19) -/
+
+/-- thread `i` runs the quiet calls in front of its next storage call (what the real request does before it
+    reaches the store: request-id / token generation, transaction markers of a non-transactional store) -/
+def flushQuiet : Nat → Sys → Nat → Sys
+  | 0, s, _ => s
+  | fuel + 1, s, i =>
+    match s.thr[i]? with
+    | some t =>
+      match t.prog with
+      | .call c _ => if c.quiet then flushQuiet fuel (s.step i) i else s
+      | .ret _ => s
+    | none => s
+
+/-- one schedule entry: thread `i` performs its next storage call, then runs on to the one after it (or ends) -/
+def parStep (s : Sys) (i : Nat) : Sys :=
+  match s.thr[i]? with
+  | some t =>
+    match t.prog with
+    | .call _ _ => flushQuiet 64 (s.step i) i
+    | .ret _ => s
+  | none => s
+
+/-- after the schedule: the unfinished requests run to completion, lowest index first -/
+def parDrain : Nat → Sys → Sys
+  | 0, s => s
+  | fuel + 1, s =>
+    match (List.range s.thr.length).find? (fun i => match s.thr[i]? with | some t => t.out.isNone | none => false) with
+    | some i => parDrain fuel (parStep s i)
+    | none => s
+
+def parRun (m : MState) (ops : List Op) (sched : List Nat) : Sys :=
+  let s0 := Sys.init m ops
+  let s1 := (List.range s0.thr.length).foldl (fun s i => flushQuiet 64 s i) s0
+  parDrain 4096 (sched.foldl parStep s1)
+
+def parSep : String := String.singleton (Char.ofNat 31)
+
 /-- one line in, one line out -/
 def histStep (h : HistState) (line : String) : HistState × String :=
   match fields line with
   | ["fault", plan] =>
     let (names', txt) := h.names.rewrite ("ok ||  || " ++ renderDump h.m.ss.store)
     ({ h with pending := parsePlan plan, names := names' }, txt)
+  | "par" :: sched :: opStrs =>
+    let ops := opStrs.filterMap (fun o => parseOp h.names (o.splitOn parSep))
+    if ops.length != opStrs.length || !(ops.all (fun op => (op.prog h.m).isSome)) then ({ h with pending := [] }, "bad-op") else
+    let s := parRun h.m ops ((decList sched).filterMap String.toNat?)
+    let outs := s.thr.map (fun t => match t.out with | some o => renderOut o | none => "unfinished")
+    let calls := (s.trace.filter (fun e => !e.2.1.quiet)).map (fun e => s!"t{e.1}:" ++ renderCall e.2)
+    let m' := { h.m with ss := s.ss }
+    let raw := "par " ++ " ;; ".intercalate outs ++ " || " ++ " ".intercalate calls ++ " || " ++ renderDump m'.ss.store
+    let (names', txt) := h.names.rewrite raw
+    ({ h with m := m', names := names', pending := [] }, txt)
   | _ =>
   match parseOp h.names (fields line) with
   | none => ({ h with pending := [] }, "bad-op")
